@@ -168,6 +168,53 @@ func (x *FnIndex) storesOutside(al *ssa.Alloc, fn *ssa.Function) bool {
 	return false
 }
 
+// deferredOnly: the literal is used only as the operand of defer statements,
+// so its stores happen while the deferred calls run (at `rundefers`).
+func (x *FnIndex) deferredOnly(lit *ssa.Function) bool {
+	mc := x.closureOf[lit]
+	if mc == nil {
+		return false
+	}
+	n := 0
+	for _, ref := range *mc.Referrers() {
+		switch ref.(type) {
+		case *ssa.Defer:
+			n++
+		case *ssa.DebugRef:
+		default:
+			return false
+		}
+	}
+	return n > 0
+}
+
+// outsideStoresInterfere: can a store made by a function literal be seen by
+// this load? Stores of literals that only run as deferred calls are seen only
+// by loads that follow `rundefers`.
+func (x *FnIndex) outsideStoresInterfere(al *ssa.Alloc, ld *ssa.UnOp) bool {
+	for _, st := range x.stores[al] {
+		if st.Parent() == ld.Parent() {
+			continue
+		}
+		if !x.deferredOnly(st.Parent()) {
+			return true
+		}
+		// deferred: interferes only if the load comes after rundefers in its block
+		for _, in := range ld.Block().Instrs {
+			if in == ssa.Instruction(ld) {
+				break
+			}
+			if _, ok := in.(*ssa.RunDefers); ok {
+				return true
+			}
+		}
+		if ld.Block() == ld.Parent().Recover {
+			return true
+		}
+	}
+	return false
+}
+
 // Origin looks through loads of local variable cells: a cell assigned once
 // (captured parameters, `rr := r` copies, temporaries) resolves to the stored
 // value; a cell assigned several times resolves when exactly one store of the
@@ -191,7 +238,7 @@ func (x *FnIndex) Origin(v ssa.Value) ssa.Value {
 				v = st[0].Val
 				continue
 			}
-			if len(st) >= 1 && al.Parent() == t.Parent() && !x.storesOutside(al, t.Parent()) {
+			if len(st) >= 1 && al.Parent() == t.Parent() && !x.outsideStoresInterfere(al, t) {
 				defs, zero := x.reachingStores(t, al)
 				if len(defs) == 1 && !zero {
 					v = defs[0].Val
@@ -1279,4 +1326,57 @@ func (x *FnIndex) Unwrap(v ssa.Value) ssa.Value {
 		break
 	}
 	return v
+}
+
+// nilOnAllPaths: the value stored by pv.Store can reach instruction `at` only
+// over the "is nil" edge of a test of that same value (with no other store to
+// the variable in between): so it is nil whenever it arrives.
+func (x *FnIndex) nilOnAllPaths(pv PVal, at ssa.Instruction) bool {
+	if pv.Store == nil || pv.V == nil || pv.Outside {
+		return false
+	}
+	fn := at.Parent()
+	if pv.Store.Parent() != fn {
+		return false
+	}
+	cell := x.ResolveAddr(pv.Store.Addr)
+	nilEdges := map[edgeKey]bool{}
+	for _, b := range fn.Blocks {
+		iff, ok := b.Instrs[len(b.Instrs)-1].(*ssa.If)
+		if !ok {
+			continue
+		}
+		s, neq, ok := nilCheck(iff.Cond)
+		if !ok {
+			continue
+		}
+		if x.Origin(s) != pv.V {
+			// the test may read the variable cell directly
+			u, isU := s.(*ssa.UnOp)
+			if !isU || x.ResolveAddr(u.X) != cell {
+				continue
+			}
+			defs, zero := []*ssa.Store(nil), false
+			if al, isAl := cell.(*ssa.Alloc); isAl {
+				defs, zero = x.reachingStores(u, al)
+			}
+			if zero || len(defs) != 1 || defs[0] != pv.Store {
+				continue
+			}
+		}
+		// remove the "is nil" edges: if the use is still reachable, the value can arrive untested
+		if neq {
+			nilEdges[edgeKey{b, 1}] = true
+		} else {
+			nilEdges[edgeKey{b, 0}] = true
+		}
+	}
+	if len(nilEdges) == 0 {
+		return false
+	}
+	_, found := pathExistsEB(fn, pv.Store, func(in ssa.Instruction) bool { return in == at }, nilEdges, func(in ssa.Instruction) bool {
+		st, ok := in.(*ssa.Store)
+		return ok && st != pv.Store && x.ResolveAddr(st.Addr) == cell
+	})
+	return !found
 }
